@@ -451,10 +451,88 @@ def ctOuter (m : Mol) (se : SEnv) (sb : List Nat) :
       else ctOuter m se sb tl ct (cs :: seen)
     | none => ctOuter m se sb tl ct seen
 
+/-- `wrong(marks)`: the labelled double bonds (keys of `stereogenic_cis_trans`, dict order) whose marks at the two ends do
+    not agree with the stored label -/
+def ctWrong (m : Mol) (se : SEnv) (ct : CtMap) : List ((Nat × Nat) × Stereo.Ends) → Except Err (List (Nat × Nat))
+  | [] => .ok []
+  | (term, _) :: tl =>
+    match ctWrong m se ct tl with
+    | .error e => .error e
+    | .ok rest =>
+      -- `labeled`: only double bonds whose centre bond carries a label
+      let stored := match se.ctc.lookup term.1 with
+        | some cs => (m.bond? cs.1 cs.2).bind (·.stereo)
+        | none => none
+      if stored.isNone then .ok rest
+      else match ct.atom.lookup term.1, ct.atom.lookup term.2 with
+      | some nn, some nm =>
+        match ct.pair.lookup (term.1, nn), ct.pair.lookup (term.2, nm) with
+        | some a, some b =>
+          match ofPy (Stereo.translateCisTrans se.sct (isHAtom m) term.1 term.2 nn nm stored none) with
+          | .error e => .error e
+          | .ok t => .ok (if (a == b) != t then term :: rest else rest)
+        | _, _ => .error .keyError
+      | _, _ => .ok rest
+
+/-- `for v in adjacency[k]:` of the turning-over loop -/
+def ctFlipNbrs (se : SEnv) (k : Nat) (done : List Nat) :
+    List Nat → List ((Nat × Nat) × Bool) → List Nat → List ((Nat × Nat) × Bool) × List Nat
+  | [], pair, todo => (pair, todo)
+  | v :: vs, pair, todo =>
+    match pair.lookup (k, v), pair.lookup (v, k) with
+    | some a, some b =>
+      if done.contains v then ctFlipNbrs se k done vs pair todo
+      else
+        let pair' := pairSet (pairSet pair (k, v) (!a)) (v, k) (!b)
+        match se.ctcp.lookup v with
+        | some o => ctFlipNbrs se k done vs pair' (todo ++ [v, o])   -- `todo.append(v); todo.append(ctcp[v])`
+        | none => ctFlipNbrs se k done vs pair' todo
+    | _, _ => ctFlipNbrs se k done vs pair todo
+
+/-- the `while todo:` loop (`todo.pop()` takes the last element) -/
+def ctFlipLoop (se : SEnv) (adjacency : List (Nat × List Nat)) :
+    Nat → List Nat → List Nat → List ((Nat × Nat) × Bool) → Except Err (List ((Nat × Nat) × Bool))
+  | 0, todo, _, pair => if todo.isEmpty then .ok pair else .error .fuel
+  | fuel + 1, todo, done, pair =>
+    match todo.getLast? with
+    | none => .ok pair
+    | some k =>
+      let todo' := todo.dropLast
+      if done.contains k then ctFlipLoop se adjacency fuel todo' done pair
+      else match adjacency.lookup k with
+        | none => .error .keyError
+        | some vs =>
+          let r := ctFlipNbrs se k (k :: done) vs pair todo'
+          ctFlipLoop se adjacency fuel r.2 (k :: done) r.1
+
+/-- the check-and-turn-over pass at the end of `__ct_map` -/
+def ctRepair (m : Mol) (se : SEnv) (adjacency : List (Nat × List Nat)) :
+    List ((Nat × Nat) × Stereo.Ends) → CtMap → Except Err CtMap
+  | [], ct => .ok ct
+  | (term, _) :: tl, ct =>
+    match ctWrong m se ct se.sct with
+    | .error e => .error e
+    | .ok before =>
+      if !before.contains term then ctRepair m se adjacency tl ct
+      else
+        let fuel := 4 * ((adjacency.map (·.2.length)).sum + adjacency.length) + 4
+        match ctFlipLoop se adjacency fuel [term.1] [term.2] ct.pair with
+        | .error e => .error e
+        | .ok pair' =>
+          let fixed : CtMap := { ct with pair := pair' }
+          match ctWrong m se fixed se.sct with
+          | .error e => .error e
+          | .ok after =>
+            if after.length < before.length && after.all before.contains then ctRepair m se adjacency tl fixed
+            else ctRepair m se adjacency tl ct
+
 /-- `MoleculeSmiles.__ct_map(adjacency)` -/
 def ctMap (m : Mol) (se : SEnv) (adjacency : List (Nat × List Nat)) : Except Err CtMap :=
   let sb := stereoBondAtoms m
-  if sb.isEmpty then .ok {} else ctOuter m se sb adjacency {} []
+  if sb.isEmpty then .ok {}
+  else match ctOuter m se sb adjacency {} [] with
+    | .error e => .error e
+    | .ok ct => ctRepair m se adjacency se.sct ct
 
 /-- what `_format_atom/_format_bond` receive as `adjacency` (with the lazily filled `'cache'` entry) -/
 structure SCtx where
